@@ -1,15 +1,41 @@
 #!/bin/bash
-# tools/seedall.sh : run every kept seeded change against the quick check of the property it breaks;
-# writes /verif/seeded/RESULTS.txt (one line per seed). /repo must be clean and otherwise idle.
+# tools/seedall.sh [seed ...] : run every kept seeded change (or the ones named) against the quick
+# check of the property it breaks; writes /verif/seeded/RESULTS.txt (one line per seed).
+# Default: one after the other on /repo itself (apply, check, undo) - /repo must be clean and idle.
+# SEEDREPOS="<dir> <dir> ..." : scratch worktrees of /repo at its HEAD (git -C /repo worktree add
+# --detach <dir> HEAD), used in parallel instead of /repo, one runner each; the 16 workers are
+# shared out between them. The result is the same - the engine reads the tree it is pointed at
+# (GOSYM_REPO) - and /repo stays free for other runs.
 cd /verif
 out=/verif/seeded/RESULTS.txt
-: > $out.tmp
-for d in $(ls -d seeded/C*-* | sort); do
-  s=$(basename $d)
-  r=$(tools/seedcheck.sh $s 2>&1)
-  line=$(echo "$r" | grep "^SEEDCHECK" | tail -1)
-  first=$(echo "$r" | grep -m1 "  harness=" | sed 's/^ *//' | cut -c1-220)
-  echo "$line | $first" >> $out.tmp
-  echo "$line"
-done
-mv $out.tmp $out
+tmp=$(mktemp -d /tmp/seedall.XXXXXX)
+seeds=("$@")
+[ ${#seeds[@]} -eq 0 ] && seeds=($(ls -d seeded/C*-* | sort | xargs -n1 basename))
+repos=(${SEEDREPOS:-/repo})
+k=${#repos[@]}
+w=$((16 / k)); [ $w -lt 2 ] && w=2
+runner() { # $1 = index of the runner
+  local i=$1 n=0
+  for s in "${seeds[@]}"; do
+    if [ $((n % k)) -eq $i ]; then
+      local r line first
+      if [ "${repos[$i]}" = /repo ]; then
+        r=$(GOSYM_WORKERS=$w GOSYM_REPLAY_DIR=$tmp/replays$i SEEDEVID=$tmp/evidence$i tools/seedcheck.sh $s 2>&1)
+      else
+        r=$(SEEDREPO=${repos[$i]} GOSYM_WORKERS=$w GOSYM_REPLAY_DIR=$tmp/replays$i SEEDEVID=$tmp/evidence$i tools/seedcheck.sh $s 2>&1)
+      fi
+      line=$(echo "$r" | grep "^SEEDCHECK" | tail -1)
+      first=$(echo "$r" | grep -m1 "  harness=" | sed 's/^ *//' | cut -c1-220)
+      echo "$line | $first" > $tmp/$s.res
+      echo "$line"
+    fi
+    n=$((n + 1))
+  done
+}
+for ((i = 0; i < k; i++)); do runner $i & done
+wait
+# merge: keep earlier lines of seeds that were not re-run
+touch $out
+{ for s in "${seeds[@]}"; do cat $tmp/$s.res; done; grep -v -F -f <(printf 'SEEDCHECK %s \n' "${seeds[@]}") $out; } | grep "^SEEDCHECK" | sort -u -k2,2 > $out.new
+mv $out.new $out
+rm -rf $tmp
